@@ -737,8 +737,11 @@ func (f *STFS) Rename(oldname, newname string) error {
 		return os.ErrInvalid
 	}
 
-	// Refuse to move a directory into its own subtree
-	if strings.HasPrefix(newname, strings.TrimSuffix(oldname, string(filepath.Separator))+string(filepath.Separator)) {
+	// Refuse to move a directory into its own subtree, however the two names are spelled ("a" and "/a" are the same entry)
+	if strings.HasPrefix(
+		strings.TrimPrefix(newname, string(filepath.Separator)),
+		strings.TrimPrefix(strings.TrimSuffix(oldname, string(filepath.Separator)), string(filepath.Separator))+string(filepath.Separator),
+	) {
 		return os.ErrInvalid
 	}
 
